@@ -23,7 +23,7 @@ FLEETS = {
     "C01": A.ALL, "C02": A.ALL, "C03": ["ADWIN", "ADWINAccuracy"], "C04": ["CUSUM", "PageHinkley", "PCACD"],
     "C05": ["DDM", "EDDM", "STEPD"], "C06": ["LinearFourRates", "LinearFourRates"], "C07": ["HDDDM", "CDBD", "HDDDM"],
     "C08": ["KdqTreeBatch", "KdqTreeStreaming", "partitioner"], "C09": ["KdqTreeBatch", "KdqTreeStreaming", "partitioner"],
-    "C10": ["NNDVI", "NNDVI"], "C11": ["PCACD", "PageHinkley"], "C12": A.ALL + ["ensemble"], "C13": ["election"],
+    "C10": ["NNDVI", "NNDVI"], "C11": ["PCACD", "PageHinkley"], "C12": A.ALL + ["ensemble"] * 5, "C13": ["election"],
     "C14": A.ALL, "C15": A.ALL, "C16": A.STREAM_Y + ["ADWIN", "KdqTreeBatch"], "C17": A.ALL, "C18": A.BATCH, "C19": ["MD3"],
 }
 
@@ -94,6 +94,19 @@ class _Member:
         el = ConfirmedElection(sensitivity=1, wait_time=rng.randint(1, 4)) if rng.random() < 0.5 else SimpleMajorityElection()
         self.ens = StreamingEnsemble({"a": ADWIN(delta=0.1, new_sample_thresh=2, window_size_thresh=4), "p": PageHinkley(burn_in=3, threshold=2)}, el)
         self.vals, _ = W.stream_values(rng, 150, kind="gauss", drift_rate=0.05)
+        # this ensemble was built without selectors; its user then configures selectors on IT, under member names another ensemble
+        # in the process may use as well
+        first = lambda X: X[:, :1] if isinstance(X, np.ndarray) else X.iloc[:, :1]  # noqa: E731
+        for nme in A.ALL:
+            for j in range(6):
+                self.ens.column_selectors[f"{nme}_{j}"] = first
+        from menelaus.ensemble import BatchEnsemble
+        from menelaus.data_drift import KdqTreeBatch
+
+        self.bens = BatchEnsemble({"k": KdqTreeBatch(bootstrap_samples=5)}, SimpleMajorityElection())
+        for nme in A.ALL:
+            for j in range(6):
+                self.bens.column_selectors[f"{nme}_{j}"] = first
 
     def _step_ensemble(self):
         self.ens.update(X=np.array([[self.vals[self.n % len(self.vals)]]]), y_true=None, y_pred=None)
